@@ -34,10 +34,9 @@ MANIFEST = dict(
          "harness/driver; Python's ==, isinstance, hashing/set construction and `re` on a small catalogue of "
          "patterns as modelled (validated by the correspondence, not proved); set / frozenset iteration order "
          "is taken from CPython (the harness ships the order it observed); user callables from a finite "
-         "catalogue; Regex group capture and chain_child scope effects belong to C07. Hypotheses: dict keys "
-         "that _precedence ranks 0 are equality keys (a plain callable key is *required* by the code, "
-         "contrary to the documented rule: reported), Optional defaults are constants for the two-valued "
-         "reading.",
+         "catalogue; Regex group capture and chain_child scope effects belong to C07. Hypothesis of the "
+         "two-valued reading: Optional defaults are plain values (a T default that cannot be evaluated ends "
+         "the match in its PathAccessError).",
     technique='Lean 4 refinement proof (code-shaped matcher = documented conformance relation) + facts obligations '
               'by decide + differential correspondence',
     ref='DESIGN.md §3 C09')
@@ -591,10 +590,6 @@ def key(case):
 def nontrivial(case, verdict):
     return base._count(case['spec'], lambda d: d.get('k') in ('list', 'set', 'fset', 'tuple', 'dict', 'and', 'or',
                                                              'not', 'match')) >= 1
-
-
-def classify(case, verdict):
-    return verdict.get('known') or None
 
 
 def shrink(case):
